@@ -62,6 +62,17 @@ static void vr_load(void *p, size_t n, int argc, char **argv)
 # define HARNESS_INPUTS(type, var) type var; vr_load(&var, sizeof(var), argc, argv)
 # define HARNESS_BEGIN int main(int argc, char **argv) {
 # define HARNESS_END   if (vr_failed) { return 1; } printf("NOT-REPRODUCED\n"); return 0; }
+#elif defined(VERIF_PLAIN_CONTRACT)
+/* "harness-checked contract" (units with "plain": true that still state a contract): goto-instrument's
+   frame instrumentation made the unit intractable, so cbmc runs the harness itself - the harness makes
+   the objects nondeterministic, assumes the requires clauses, calls the real function and asserts the
+   same POSTS list.  What is lost against DFCC: the assigns clause is not enforced. */
+# define RET vr_ret
+# define OLD(obj, path) (old_##obj.path)
+# define ENSURES_CLAUSE(label, cond)
+# define NATIVE_CHECK(label, cond) __CPROVER_assert(cond, #label);
+# define SNAPSHOT(obj) (old_##obj = obj)
+# define DECL_SNAPSHOT(type, obj) static type old_##obj
 #else
 # define RET __CPROVER_return_value
 # define OLD(obj, path) __CPROVER_old(obj.path)
@@ -69,6 +80,8 @@ static void vr_load(void *p, size_t n, int argc, char **argv)
 # define NATIVE_CHECK(label, cond)
 # define SNAPSHOT(obj)
 # define DECL_SNAPSHOT(type, obj)
+#endif
+#ifndef NATIVE_REPLAY
 /* one nondeterministic, pointer-free input record per unit: cbmc's trace
    gives its value as nested members, the driver flattens it to bytes */
 # define HARNESS_INPUTS(type, var) type var = nondet_##var()
